@@ -210,4 +210,98 @@ theorem swapLoop_final (n : Nat) (loc : List Nat) (hnd : loc.Nodup) (hlt : ∀ q
   · rw [h.sorted i hi]; simp [hi]
   · rw [List.getElem?_eq_none (by rw [h.len]; omega), List.getElem?_eq_none (by simp; omega)]
 
+/-! ### the composed permutation -/
+theorem length_digits (r n x : Nat) : (digits r n x).length = n := by simp [digits]
+
+theorem map_getD_range (l : List Nat) : (List.range l.length).map (fun q => l.getD q 0) = l := by
+  apply List.ext_getElem
+  · simp
+  · intro i h1 h2
+    simp [List.getD_eq_getElem?_getD, List.getElem?_eq_getElem h2]
+
+theorem permFromLocation_eq_spec (n r : Nat) (loc : List Nat) (hnd : loc.Nodup)
+    (hlt : ∀ q ∈ loc, q < n) (col : Nat) :
+    permFromLocation n r loc col = permSpec n r loc col := by
+  have h := swapLoop_inv n loc hnd hlt
+  show undigits r (applySwaps (swapLoop n loc).1 (digits r n col)) =
+    undigits r ((perm0 n loc).map (fun q => (digits r n col).getD q 0))
+  rw [← h.comp, swapLoop_final n loc hnd hlt]
+  conv => lhs; rw [← map_getD_range (digits r n col), length_digits]
+
+/-! ### digits / undigits -/
+theorem snoc_induction {motive : List Nat → Prop} (nil : motive [])
+    (append_singleton : ∀ ds d, motive ds → motive (ds ++ [d])) (l : List Nat) : motive l := by
+  have h : ∀ l : List Nat, motive l.reverse := by
+    intro l
+    induction l with
+    | nil => exact nil
+    | cons a l ih => rw [List.reverse_cons]; exact append_singleton _ _ ih
+  simpa using h l.reverse
+
+theorem undigits_snoc (r : Nat) (ds : List Nat) (d : Nat) :
+    undigits r (ds ++ [d]) = undigits r ds * r + d := by
+  simp [undigits]
+
+theorem digits_succ (r n x : Nat) : digits r (n + 1) x = digits r n (x / r) ++ [x % r] := by
+  unfold digits
+  rw [List.range_succ, List.map_append]
+  congr 1
+  · apply List.map_congr_left
+    intro i hi
+    rw [List.mem_range] at hi
+    have : n + 1 - 1 - i = (n - 1 - i) + 1 := by omega
+    rw [this, Nat.pow_succ, Nat.div_div_eq_div_mul, Nat.mul_comm]
+  · simp
+
+theorem undigits_digits (r n x : Nat) (hx : x < r ^ n) : undigits r (digits r n x) = x := by
+  induction n generalizing x with
+  | zero => simp [digits, undigits]; simp at hx; exact hx.symm
+  | succ n ih =>
+    rw [digits_succ, undigits_snoc]
+    have hr : 0 < r := by
+      rcases Nat.eq_zero_or_pos r with h | h
+      · subst h; simp at hx
+      · exact h
+    rw [ih (x / r) (by rw [Nat.div_lt_iff_lt_mul hr]; rwa [Nat.pow_succ] at hx)]
+    exact Nat.div_add_mod' x r
+
+theorem digits_lt (r n x : Nat) (hr : 0 < r) : ∀ d ∈ digits r n x, d < r := by
+  intro d hd
+  simp only [digits, List.mem_map] at hd
+  obtain ⟨i, _, rfl⟩ := hd
+  exact Nat.mod_lt _ hr
+
+/-- under `x < r ^ n` all digits are `< r` (for `r = 0` this forces `n = 0`: no digits) -/
+theorem digits_lt_of_lt (r n x : Nat) (hx : x < r ^ n) : ∀ d ∈ digits r n x, d < r := by
+  rcases Nat.eq_zero_or_pos r with h | h
+  · subst h
+    cases n with
+    | zero => simp [digits]
+    | succ n => simp at hx
+  · exact digits_lt r n x h
+
+theorem undigits_lt (r : Nat) (ds : List Nat) (h : ∀ d ∈ ds, d < r) :
+    undigits r ds < r ^ ds.length := by
+  induction ds using snoc_induction with
+  | nil => simp [undigits]
+  | append_singleton ds d ih =>
+    rw [undigits_snoc, List.length_append, List.length_singleton, Nat.pow_succ]
+    have h1 := ih (fun x hx => h x (by simp [hx]))
+    have h2 : d < r := h d (by simp)
+    have h3 : (undigits r ds + 1) * r ≤ r ^ ds.length * r := Nat.mul_le_mul_right r h1
+    rw [Nat.add_mul] at h3
+    omega
+
+theorem digits_undigits (r : Nat) (ds : List Nat) (h : ∀ d ∈ ds, d < r) :
+    digits r ds.length (undigits r ds) = ds := by
+  induction ds using snoc_induction with
+  | nil => simp [digits]
+  | append_singleton ds d ih =>
+    have h1 := ih (fun x hx => h x (by simp [hx]))
+    have h2 : d < r := h d (by simp)
+    rw [undigits_snoc, List.length_append, List.length_singleton, digits_succ]
+    have hr : 0 < r := by omega
+    rw [Nat.mul_comm, Nat.mul_add_div hr, Nat.mul_add_mod, Nat.div_eq_of_lt h2, Nat.mod_eq_of_lt h2,
+      Nat.add_zero, h1]
+
 end BqVerif.Graph
